@@ -30,6 +30,24 @@ type physFile struct {
 	Size    int64  `json:"size"`
 	Rotated string `json:"rotated,omitempty"` // "" | running | down
 	Epoch   int    `json:"epoch"`             // number of truncations
+	Gone    string `json:"gone,omitempty"`    // the file went away (its name was unlinked / renamed over): down | running
+	GoneBy  string `json:"gone_by,omitempty"` // unlink | rename-over
+	Reused  bool   `json:"reused_inode,omitempty"` // this file obtained the inode number of a file that had gone away
+}
+
+// reuseInfo describes how an inode-reuse scenario was staged.
+type reuseInfo struct {
+	Where        string           `json:"old_file_went_away"` // down | running
+	FreedBy      string           `json:"inode_freed_by"`     // unlink | rename-over
+	Inode        uint64           `json:"inode"`
+	OldFile      string           `json:"old_file"`
+	OldSize      int64            `json:"old_size"`
+	NewFile      string           `json:"new_file"`
+	NewSize      int64            `json:"new_size_when_it_appeared"`
+	Creates      int              `json:"files_created_until_the_inode_number_came_back"`
+	StaleStreams map[string]int64 `json:"offsets_of_the_old_file_in_the_offsets_file_run2_loaded"`
+	StaleMin     int64            `json:"stale_min"` // -1: the loaded offsets file had no entry for the inode
+	StaleMax     int64            `json:"stale_max"`
 }
 
 // proc is one run of file.d.
@@ -61,6 +79,7 @@ type proc struct {
 	createNotifies int             // "notify notify.Create ..." lines (start-up walk and new files)
 	reopenTicks    int             // maintenance ticks that closed and reopened at least one fully read file
 	offsetsAtStop  bool            // graceful stop: "saving last known offsets..." then "stopping output" were logged
+	addedSID       map[string]string // file name -> source id of the job last added under that name
 }
 
 var (
@@ -68,7 +87,7 @@ var (
 	reStat     = regexp.MustCompile(`events in use=(-?\d+)/\d+.* total=(\d+)\|`)
 	reID       = regexp.MustCompile(`@k\d+-\d{6}@`)
 	reJobID    = regexp.MustCompile(`^job (\d+):`)
-	reJobAdded = regexp.MustCompile(`^job added for a file (\d+):`)
+	reJobAdded = regexp.MustCompile(`^job added for a file (\d+):(.*)$`)
 )
 
 func startProc(bin, dir, cfgPath, logName string, gomaxprocs int, hooks string, hookSeed int64) (*proc, error) {
@@ -237,8 +256,14 @@ func (p *proc) line(b []byte) {
 			p.deletedJobs[m[1]] = true
 		}
 	case strings.HasPrefix(l.Message, "job added for a file "):
-		if m := reJobAdded.FindStringSubmatch(l.Message); m != nil && p.deletedJobs[m[1]] {
-			p.readded++
+		if m := reJobAdded.FindStringSubmatch(l.Message); m != nil {
+			if p.deletedJobs[m[1]] {
+				p.readded++
+			}
+			if p.addedSID == nil {
+				p.addedSID = map[string]string{}
+			}
+			p.addedSID[m[2]] = m[1]
 		}
 	case l.Message == "wrong log format":
 		p.wrongFormat++
@@ -309,6 +334,8 @@ type result struct {
 	WaitNotes    []string
 	Dir          string
 	WallMs       int64
+	NotStaged    bool       // kind inodereuse: the file system gave the freed inode number to somebody else (nothing observed)
+	Reuse        *reuseInfo // kind inodereuse: how the history was staged
 }
 
 type runner struct {
@@ -323,6 +350,9 @@ type runner struct {
 	phase  string
 	hooks  string
 	outDir string
+	xPhys  int    // kind inodereuse: physical file that goes away (-1: none marked)
+	holder string // hard link that keeps its inode number reserved
+	xSID   string // its source id in the running file.d (from the "job added" log line)
 }
 
 func (r *runner) note(f string, a ...any) {
@@ -541,14 +571,14 @@ func runScenario(s *Scenario, bin string) *result {
 	} else {
 		fmt.Println("  keeping", dir)
 	}
-	r := &runner{s: s, bin: bin, dir: dir, res: res, outDir: filepath.Join(dir, "out"), phase: "pre"}
+	r := &runner{s: s, bin: bin, dir: dir, res: res, outDir: filepath.Join(dir, "out"), phase: "pre", xPhys: -1}
 	r.cur = make([]int, s.NFiles)
 	r.rotN = make([]int, s.NFiles)
 	r.oldSz = make([]int64, s.NFiles)
 	for i := range r.cur {
 		r.cur[i] = -1
 	}
-	for _, d := range []string{"in", "out"} {
+	for _, d := range []string{"in", "out", "hold"} {
 		if err := os.MkdirAll(filepath.Join(dir, d), 0o755); err != nil {
 			res.HarnessErr = err.Error()
 			return res
@@ -714,7 +744,24 @@ func runScenario(s *Scenario, bin string) *result {
 		case "WAITSAVED":
 			// wait until the offsets file on disk has an entry for the file whose smallest stream offset is >= op.Ms
 			dl := time.Now().Add(8 * time.Second)
-			ph := r.physOf(op.File)
+			var ph *physFile
+			want := map[string]int64{} // op.Ms < 0: every stream of the file must be saved up to its last line
+			if op.Raw == "X" {
+				if r.xPhys < 0 {
+					res.HarnessErr = "generator: WAITSAVED X without MARKX"
+					return res
+				}
+				ph = res.Phys[r.xPhys]
+				if op.Ms < 0 {
+					for i := range s.Lines {
+						if l := &s.Lines[i]; l.Written && l.Phys == r.xPhys && l.Kind == "plain" && l.End > want[streamKey(l.Stream)] {
+							want[streamKey(l.Stream)] = l.End
+						}
+					}
+				}
+			} else {
+				ph = r.physOf(op.File)
+			}
 			for {
 				ok := false
 				if b, err := os.ReadFile(filepath.Join(r.dir, "offsets.yaml")); err == nil {
@@ -726,6 +773,11 @@ func runScenario(s *Scenario, bin string) *result {
 									ok = false
 								}
 							}
+							for st, v := range want {
+								if e.Streams[st] < v {
+									ok = false
+								}
+							}
 						}
 					}
 				}
@@ -733,10 +785,53 @@ func runScenario(s *Scenario, bin string) *result {
 					break
 				}
 				if time.Now().After(dl) {
-					res.Inconclusive = "watchdog: offsets never saved far enough before the planned truncation"
+					res.Inconclusive = "watchdog: offsets never saved far enough before the planned end of run 1"
 					return res
 				}
 				time.Sleep(5 * time.Millisecond)
+			}
+		case "MARKX":
+			r.xPhys = r.cur[op.File]
+			if r.xPhys < 0 || res.Phys[r.xPhys].Inode == 0 {
+				res.HarnessErr = "generator: MARKX on a file that was never written"
+				return res
+			}
+		case "VANISH":
+			if msg := r.vanish(op); msg != "" {
+				res.HarnessErr = msg
+				return res
+			}
+		case "WAITGONE":
+			// file.d holds the file open: wait for its own report that the job was dropped (maintenance closed
+			// the descriptor, could not reopen the name or found another file under it)
+			if r.xSID == "" {
+				res.Inconclusive = "the job of the file that went away was not seen in file.d's log"
+				return res
+			}
+			dl := time.Now().Add(20 * time.Second)
+			for {
+				r.p.drain()
+				if r.p.deletedJobs[r.xSID] {
+					break
+				}
+				if !r.p.alive() {
+					r.endRun2()
+					return res
+				}
+				if time.Now().After(dl) {
+					res.Inconclusive = "watchdog: file.d never dropped the job of the file that went away"
+					return res
+				}
+				time.Sleep(5 * time.Millisecond)
+			}
+		case "REUSE":
+			if msg := r.reuse(op); msg != "" {
+				res.HarnessErr = msg
+				return res
+			}
+			if res.NotStaged {
+				res.Inconclusive = "environment: the file system gave the freed inode number to another file (history not staged)"
+				return res
 			}
 		case "HELDIDLE":
 			// the harness has left a line unterminated at the end of a file: wait until file.d is idle
@@ -763,6 +858,10 @@ func runScenario(s *Scenario, bin string) *result {
 			}
 		case "WAITIDLE":
 			idle, dead := r.waitIdle(idleWatchdog)
+			if dead && r.phase == "run2" && s.Kind != "trunc" {
+				r.endRun2() // the restart died: judged as such
+				return res
+			}
 			if dead && s.Kind != "trunc" {
 				res.Inconclusive = "run 1 died before the scenario began"
 				return res
@@ -1171,6 +1270,157 @@ func (r *runner) endRun2() {
 	if !r.allExpected(res.D) {
 		res.Run2LogTail = sanitize(r.p.logTail(8000), r.dir)
 	}
+}
+
+// vanish makes the marked file X go away the way a rotation drops its oldest generation: its name is
+// unlinked, or the current generation is renamed over it. A hard link outside the watched directory
+// keeps X's inode number reserved until the new file is created (REUSE): for file.d the file is gone
+// either way (its name no longer leads to it), for the harness the window in which another process of
+// the machine can take the freed number shrinks to microseconds.
+func (r *runner) vanish(op Op) string {
+	if r.xPhys < 0 {
+		return "generator: VANISH without MARKX"
+	}
+	x := r.res.Phys[r.xPhys]
+	if r.p != nil {
+		r.p.drain()
+		r.xSID = r.p.addedSID[x.Path]
+	}
+	r.holder = filepath.Join(r.dir, "hold", "x.keep")
+	if err := os.Link(x.Path, r.holder); err != nil {
+		return err.Error()
+	}
+	when := "down"
+	if r.procAlive() {
+		when = "running"
+	}
+	switch op.Raw {
+	case "unlink":
+		if err := os.Remove(x.Path); err != nil {
+			return err.Error()
+		}
+		if r.cur[x.Logical] == r.xPhys {
+			r.cur[x.Logical] = -1
+		}
+	case "rename-over":
+		if r.cur[x.Logical] < 0 || r.cur[x.Logical] == r.xPhys {
+			return "generator: rename-over needs a current generation besides X"
+		}
+		y := r.res.Phys[r.cur[x.Logical]]
+		if y.Inode == 0 {
+			return "generator: rename-over with an unwritten current generation"
+		}
+		if err := os.Rename(y.Path, x.Path); err != nil {
+			return err.Error()
+		}
+		y.Path = x.Path
+		y.Rotated = when
+		r.cur[x.Logical] = -1
+	default:
+		return "generator: VANISH mode " + op.Raw
+	}
+	x.Gone, x.GoneBy = when, op.Raw
+	r.note("%s (inode %d, size %d) went away by %s while file.d was %s", filepath.Base(x.Path), x.Inode, x.Size, op.Raw, when)
+	if r.p != nil {
+		r.p.touch()
+	}
+	return ""
+}
+
+// reuse frees X's inode number and creates the new watched file on it: files are created under
+// unwatched names in the watched directory (the file system hands out the lowest free number of the
+// directory's group, so files that got a lower number are kept until the end) until one has X's
+// number; that one gets the whole content in one write and is renamed to its watched name.
+func (r *runner) reuse(op Op) string {
+	res := r.res
+	if r.xPhys < 0 || r.holder == "" {
+		return "generator: REUSE without VANISH"
+	}
+	if r.cur[op.File] >= 0 {
+		return "generator: REUSE on a file name that exists"
+	}
+	x := res.Phys[r.xPhys]
+	info := &reuseInfo{Where: x.Gone, FreedBy: x.GoneBy, Inode: x.Inode, OldFile: filepath.Base(x.Path), OldSize: x.Size, StaleMin: -1, StaleMax: -1}
+	res.Reuse = info
+	for _, e := range parseOffsets(res.OffsetsAtKil) {
+		if e.Inode == x.Inode && len(e.Streams) > 0 {
+			info.StaleStreams = e.Streams
+			for _, v := range e.Streams {
+				if info.StaleMin < 0 || v < info.StaleMin {
+					info.StaleMin = v
+				}
+				if v > info.StaleMax {
+					info.StaleMax = v
+				}
+			}
+		}
+	}
+	var buf bytes.Buffer
+	type span struct {
+		li         int
+		start, end int64
+	}
+	var spans []span
+	for _, li := range op.Lines {
+		start := int64(buf.Len())
+		buf.WriteString(r.s.Lines[li].Text)
+		buf.WriteByte('\n')
+		spans = append(spans, span{li, start, int64(buf.Len())})
+	}
+	if int64(buf.Len()) <= info.StaleMax || int64(buf.Len()) <= x.Size {
+		return fmt.Sprintf("generator: new file (%d bytes) not longer than the old one (%d bytes, saved offsets up to %d)", buf.Len(), x.Size, info.StaleMax)
+	}
+	if err := os.Remove(r.holder); err != nil {
+		return err.Error()
+	}
+	var junk []string
+	defer func() {
+		for _, j := range junk {
+			os.Remove(j)
+		}
+	}()
+	for n := 0; n < 48; n++ {
+		tmp := filepath.Join(r.dir, "in", fmt.Sprintf("new-%d.tmp", n))
+		f, err := os.OpenFile(tmp, os.O_CREATE|os.O_EXCL|os.O_WRONLY, 0o644)
+		if err != nil {
+			return err.Error()
+		}
+		info.Creates = n + 1
+		var ino uint64
+		if st, err := f.Stat(); err == nil {
+			if sy, ok := st.Sys().(*syscall.Stat_t); ok {
+				ino = sy.Ino
+			}
+		}
+		if ino != x.Inode {
+			f.Close()
+			junk = append(junk, tmp)
+			continue
+		}
+		if _, err := f.Write(buf.Bytes()); err != nil {
+			f.Close()
+			return err.Error()
+		}
+		if err := f.Close(); err != nil {
+			return err.Error()
+		}
+		ph := r.physOf(op.File)
+		if err := os.Rename(tmp, ph.Path); err != nil {
+			return err.Error()
+		}
+		ph.Inode, ph.Size, ph.Reused = ino, int64(buf.Len()), true
+		info.NewFile, info.NewSize = filepath.Base(ph.Path), ph.Size
+		for _, sp := range spans {
+			r.markWritten(sp.li, sp.start, sp.end)
+		}
+		r.note("%s created with the inode number %d of %s (create no. %d), %d bytes at once", info.NewFile, ino, info.OldFile, n+1, ph.Size)
+		if r.p != nil {
+			r.p.touch()
+		}
+		return ""
+	}
+	res.NotStaged = true
+	return ""
 }
 
 // ---- offsets file (independent, tolerant reader used for classification only)
